@@ -439,6 +439,9 @@ class Checker:
             return fail("assembler hung on a data-directive program", "hang", "image", "timeout")
         if not r.ok:
             return fail("valid data-directive program rejected", "rejected", "accepted", "; ".join(r.diag())[:300])
+        if r.read8_bad >= 0:
+            return fail("Memory::read8 (the accessor every output writer reads the image through) returns a different "
+                        "byte than the one stored", "read8_mismatch", "stored byte", "address 0x%x" % r.read8_bad)
         if r.image != img:
             diff = []
             for a in sorted(set(r.image) | set(img)):
@@ -584,6 +587,8 @@ def replay(payload):
             if not r.ok:
                 return kind == "rejected", "rejected: %s" % "; ".join(r.diag())[:200]
             img = {int(k): v for k, v in payload["model_image"].items()}
+            if r.read8_bad >= 0:
+                return True, "read8 mismatch at 0x%x" % r.read8_bad
             if r.image != img:
                 return True, "image still differs"
             syms = {n: a for (n, sc), a in r.symdict(2).items() if sc == 0}
